@@ -1,14 +1,129 @@
 /-
-  C05 — placeholder property file: the protocol model and its theorems are being added (see DESIGN.md
-  section 6); until then the property is decided by the oracles of the harness client on explored schedules.
+  C05 — each retired object is given to its disposer exactly once, after a grace period, no later than
+  destruction of the singleton, including objects that arrived when the buffer was full
+  (cds/urcu/details/gpi.h, gpb.h).
+  Property theorems only; model in Algo/RCU/Model.lean, invariants in Algo/RCU/Inv.lean.
+  Quantification as in C04: every reachable state, every schedule / thread count / client program / flavour /
+  threshold `c` / physical buffer capacity `bc`.  Client discipline: an object is retired at most once.
 -/
-import CdsVerif.Base.Spec
+import CdsVerif.Props.C04
 namespace CdsVerif.Props.C05
-open CdsVerif.Lin CdsVerif.Spec
+open CdsVerif.Machine CdsVerif.Spec CdsVerif.Algo CdsVerif.Algo.RCU
 
-/-- The history checker used by the harness is exact for the specification it judges against. -/
-theorem C05_history_oracle_exact (ops : List (OpRec GOp GRet)) (hwf : ∀ o ∈ ops, o.inv ≤ o.res) :
-    linCheck fifo ops = true ↔ Linearizable fifo ops :=
-  linCheck_iff _ ops hwf
+/-- At most once. -/
+theorem C05_at_most_once (b : Bool) (n c bc : Nat) (s : RCU.St) (h : RCU.model.Reachable (RCU.init b n c bc) s)
+    (p : RCU.Obj) : s.disposed p ≤ 1 := by
+  have := (RCU.inv_reachable b n c bc s h).P.p4 p
+  split at this <;> omega
+
+/-- Only retired objects are disposed. -/
+theorem C05_only_after_retire (b : Bool) (n c bc : Nat) (s : RCU.St) (h : RCU.model.Reachable (RCU.init b n c bc) s)
+    (p : RCU.Obj) (hd : s.disposed p > 0) : s.retiredAt p ≠ none := by
+  have hP := (RCU.inv_reachable b n c bc s h).P
+  have h4 := hP.p4 p
+  have h1 := hP.p1 p
+  grind
+
+/-- ... and only after a grace period: this is `C04_no_dispose_under_preexisting_reader`. -/
+theorem C05_only_after_grace_period (b : Bool) (n c bc : Nat) (s : RCU.St)
+    (h : RCU.model.Reachable (RCU.init b n c bc) s) (t : Tid) (s' : RCU.St) (e : Ev)
+    (hstep : RCU.model.step s t = some (s', e)) (p : RCU.Obj) (hd : s'.disposed p ≠ s.disposed p) :
+    ∀ u k r, s.secStart u = some k → s.retiredAt p = some r → r < k :=
+  C04.C04_no_dispose_under_preexisting_reader b n c bc s h t s' e hstep p hd
+
+/-- Conservation.  Every retired object is in exactly one place, exactly once: given to the disposer (once),
+    or in the buffer (one entry), or in a local variable of exactly one thread that is executing
+    retire_ptr / push_buffer / synchronize / clear_buffer / Destruct (one occurrence: `RCU.locals`).
+    An object that has not been retired is nowhere. -/
+theorem C05_conservation (b : Bool) (n c bc : Nat) (s : RCU.St) (h : RCU.model.Reachable (RCU.init b n c bc) s)
+    (p : RCU.Obj) :
+    (s.retiredAt p ≠ none →
+      (s.disposed p = 1 ∧ p ∉ s.buf.map Prod.fst ∧ ∀ t, p ∉ RCU.locals (s.pc t)) ∨
+      (s.disposed p = 0 ∧ (s.buf.map Prod.fst).count p = 1 ∧ ∀ t, p ∉ RCU.locals (s.pc t)) ∨
+      (s.disposed p = 0 ∧ p ∉ s.buf.map Prod.fst ∧
+        ∃ t, (RCU.locals (s.pc t)).count p = 1 ∧ ∀ t', t' ≠ t → p ∉ RCU.locals (s.pc t'))) ∧
+    (s.retiredAt p = none → s.disposed p = 0 ∧ p ∉ s.buf.map Prod.fst ∧ ∀ t, p ∉ RCU.locals (s.pc t)) := by
+  obtain ⟨p1, p2, p3, p4, p5, p6⟩ := (RCU.inv_reachable b n c bc s h).P
+  have h1 := p1 p
+  have h3 := p3 p
+  have h4 := p4 p
+  have cnt : ∀ l : List RCU.Obj, l.Nodup → p ∈ l → l.count p = 1 := by
+    intro l hl hm
+    have a := List.nodup_iff_count.1 hl p
+    have b := List.count_pos_iff.2 hm
+    omega
+  constructor
+  · intro hr
+    cases hpl : s.place p with
+    | fresh => exact absurd (h1.1 hpl) hr
+    | gone =>
+      left
+      refine ⟨by simp [h4, hpl], fun hm => by simp [h3.2 hm] at hpl, fun t hm => by simp [(p2 p t).2 hm] at hpl⟩
+    | buf =>
+      right; left
+      refine ⟨by simp [h4, hpl], cnt _ p6 (h3.1 hpl), fun t hm => by simp [(p2 p t).2 hm] at hpl⟩
+    | thr t =>
+      right; right
+      refine ⟨by simp [h4, hpl], fun hm => by simp [h3.2 hm] at hpl, t, cnt _ (p5 t) ((p2 p t).1 hpl), ?_⟩
+      intro t' hne hm
+      have := (p2 p t').2 hm
+      rw [hpl] at this
+      exact hne (by injection this with h; exact h.symm)
+  · intro hr
+    have hf := h1.2 hr
+    refine ⟨by simp [h4, hf], fun hm => by simp [h3.2 hm] at hf, fun t hm => by simp [(p2 p t).2 hm] at hf⟩
+
+/-- No later than destruction of the singleton: once Destruct (`clear_buffer(max)`) has completed and every thread
+    has returned, every object that was ever retired has been given to its disposer (exactly once, by
+    `C05_at_most_once`).  This includes objects whose push failed because the buffer was full: they live in the
+    `own` list of the retiring thread until that thread frees them, before it returns. -/
+theorem C05_all_disposed_after_destruct (b : Bool) (n c bc : Nat) (s : RCU.St)
+    (h : RCU.model.Reachable (RCU.init b n c bc) s) (hd : s.destroyed = true) (hidle : ∀ t, s.pc t = .idle)
+    (p : RCU.Obj) (hr : s.retiredAt p ≠ none) : s.disposed p = 1 := by
+  have hcons := (C05_conservation b n c bc s h p).1 hr
+  have hbuf := ((RCU.inv_reachable b n c bc s h).A.a12 hd).1
+  rcases hcons with h1 | h1 | h1
+  · exact h1.1
+  · rw [hbuf] at h1; simp at h1
+  · obtain ⟨-, -, t, ht, -⟩ := h1
+    rw [hidle t] at ht; simp [RCU.locals] at ht
+
+/-- A thread that has returned to its client holds no object: an object whose push failed is freed by the retiring
+    thread before `retire_ptr` returns (it is in nobody's hands afterwards). -/
+theorem C05_idle_holds_nothing (s : RCU.St) (t : Tid) (h : s.pc t = .idle ∨ s.pc t = .done) :
+    RCU.locals (s.pc t) = [] := by
+  rcases h with h | h <;> rw [h] <;> rfl
+
+/-! ### Non-vacuity -/
+
+/-- Buffer full: physical capacity 1, threshold 5.  Object 1 is buffered; the push of object 2 fails, so the
+    retiring thread synchronizes, clears the buffer (object 1, tag 0 ≤ epoch 0) and frees object 2 itself. -/
+example : ∃ s os, RCU.model.run (RCU.init true 1 5 1)
+    ([(0, .invoke ⟨"retire", [0, 1]⟩), (0, .step), (0, .step), (0, .step), (0, .ret),
+      (0, .invoke ⟨"retire", [0, 2]⟩)] ++ List.replicate 15 (0, .step) ++ [(0, .ret)]) = some (s, os)
+    ∧ s.disposed 1 = 1 ∧ s.disposed 2 = 1 ∧ s.buf = [] ∧ s.pc 0 = .idle := by
+  refine ⟨_, _, rfl, ?_, ?_, ?_, ?_⟩ <;> decide
+
+/-- the same run stopped just after the failed push: object 2 is in the thread's `own` list -/
+example : ∃ s os, RCU.model.run (RCU.init true 1 5 1)
+    [(0, .invoke ⟨"retire", [0, 1]⟩), (0, .step), (0, .step), (0, .step), (0, .ret),
+     (0, .invoke ⟨"retire", [0, 2]⟩), (0, .step), (0, .step)] = some (s, os)
+    ∧ s.pc 0 = .acq [2] ∧ s.buf = [(1, 0)] ∧ s.disposed 2 = 0 := by
+  refine ⟨_, _, rfl, ?_, ?_, ?_⟩ <;> decide
+
+/-- Destruct frees what is still buffered. -/
+example : ∃ s os, RCU.model.run (RCU.init true 1 5 1)
+    [(0, .invoke ⟨"retire", [0, 3]⟩), (0, .step), (0, .step), (0, .step), (0, .ret),
+     (0, .invoke ⟨"destruct", [0]⟩), (0, .step), (0, .step), (0, .step), (0, .ret)] = some (s, os)
+    ∧ s.disposed 3 = 1 ∧ s.destroyed = true ∧ s.pc 0 = .idle := by
+  refine ⟨_, _, rfl, ?_, ?_, ?_⟩ <;> decide
+
+/-- The epoch tag at work: thread 1 retires object 2 after thread 0's fetch_add (tag 1 > epoch 0 returned to
+    thread 0).  Thread 0's clear_buffer(0) frees object 1 but pushes object 2 back. -/
+example : ∃ s os, RCU.model.run (RCU.init true 2 1 4)
+    ([(0, .invoke ⟨"retire", [0, 1]⟩)] ++ List.replicate 5 (0, .step) ++
+     [(1, .invoke ⟨"retire", [1, 2]⟩)] ++ List.replicate 4 (1, .step) ++ List.replicate 15 (0, .step)) = some (s, os)
+    ∧ s.disposed 1 = 1 ∧ s.disposed 2 = 0 ∧ s.buf = [(2, 1)] ∧ s.pc 0 = .sizeLd [] := by
+  refine ⟨_, _, rfl, ?_, ?_, ?_, ?_⟩ <;> decide
 
 end CdsVerif.Props.C05
